@@ -110,10 +110,47 @@ def setting_representable(cfg):
             64 * cfg[2] + (64 * cfg[3] + 500) // 1000 < 65536)
 
 
+def readback_cfgs(line, out):
+    """The settings in force are what the library's getters report after the setters ran (the
+    driver prints them first: 0.cfg:k:...).  A value the setters refuse (integer part 0, fraction
+    >= 1000, max_retransmit 0) leaves the library's default; neither the defaults nor the setters'
+    acceptance rules are C06's business, so model and oracle take the read-back values."""
+    cfgs, _ = parse_case(line)
+    got = {}
+    for w in out.split():
+        m = re.match(r"^0\.cfg:(\d+):(\d+):(\d+):(\d+):(\d+):(\d+)$", w)
+        if m:
+            got[int(m.group(1))] = tuple(int(x) for x in m.groups()[1:])
+    if len(got) != len(cfgs):
+        return None
+    return [got[k] + (cfgs[k][5],) for k in range(len(cfgs))]
+
+
+def model_line(line, out):
+    """the case line with the session settings replaced by the read-back values"""
+    rb = readback_cfgs(line, out)
+    if rb is None:
+        return line
+    t = line.split()
+    for k, c in enumerate(rb):
+        t[2 + 6 * k: 8 + 6 * k] = [str(x) for x in c]
+    return " ".join(t)
+
+
+def run_pair(model, drv, lines):
+    """C first, then the model on the settings the library says are in force"""
+    oc, crashes = vlib.run_lines_robust(drv, lines)
+    ml = [model_line(l, o) if l.startswith("c06 ") else l for l, o in zip(lines, oc)]
+    om, _ = vlib.run_lines_robust(model, ml)
+    return om, oc, crashes
+
+
 def impl_oracle(line, out):
     """Evaluate the property on what the implementation did.  Returns (problems, facts)."""
     cfgs, ev = parse_case(line)
+    cfgs = readback_cfgs(line, out) or cfgs
     items = parse_items(out)
+    items = [i for i in items if i[1] != "cfg"]
     ns = len(cfgs)
     problems = []
     by_ev = {}
@@ -508,7 +545,7 @@ def main(run):
     for c in gens:
         cases.append((c, G.line_of(c)))
     lines = [c[1] for c in cases]
-    om, oc, crashes = tie.run_both(model, drv, lines)
+    om, oc, crashes = run_pair(model, drv, lines)
     run.cov["driver_crashes"] = len(crashes)
     nbad = 0
     oracle_self = []
@@ -557,13 +594,13 @@ def main(run):
                     def still(prefix, cand):
                         c2 = {"cfgs": c["cfgs"], "ev": cand}
                         l2 = G.line_of(c2)
-                        a, b, _ = tie.run_both(model, drv, [l2])
+                        a, b, _ = run_pair(model, drv, [l2])
                         if probs:
                             return bool(impl_oracle(l2, b[0])[0]) if not b[0].startswith(("CRASH", "ERROR")) else True
                         return compare(l2, a[0], b[0]) is not None
                     ev2 = tie.shrink_ops(None, c["ev"], still, max_steps=250)
                     small = G.line_of({"cfgs": c["cfgs"], "ev": ev2})
-                a, b, _ = tie.run_both(model, drv, [small])
+                a, b, _ = run_pair(model, drv, [small])
                 p2 = impl_oracle(small, b[0])[0] if not b[0].startswith(("CRASH", "ERROR")) else ["crash"]
                 run.violation(bad, "case: %s\nmodel: %s\nimpl : %s\noracle on impl: %s\n(original case: %s)\n" %
                               (small, a[0], b[0], p2 or "holds", ln), tag="tie%d" % nbad,
